@@ -1,0 +1,16 @@
+//go:build verif
+
+package ringbuffer
+
+// VerifState returns a snapshot of the ring taken under the mutex
+// (read index, write index, closed flag, copy of the slots).
+// It exists for the verification harness only (build tag verif).
+func (r *RingBuffer) VerifState() (uint64, uint64, bool, []any) {
+	r.mutex.Lock()
+	defer r.mutex.Unlock()
+
+	slots := make([]any, len(r.buffer))
+	copy(slots, r.buffer)
+
+	return r.readIndex, r.writeIndex, r.closed, slots
+}
